@@ -319,12 +319,22 @@ def checkC05 (h : History) (obs : List RunObs) : Option String :=
 
 /-! ### C11 — invalid objects isolated -/
 
+/-- ids of the apply set on a two-object dependency cycle, and everything of the apply set that (transitively) depends on one of
+them: none of these can be ordered, all of them are reported by the cycle error -/
+def onOrBehindCycle (r : Run) : List Id :=
+  let ms := r.objs
+  let core := (ms.filter fun m => (declaredDeps m).any fun d =>
+    d ≠ m.id && (ms.find? (fun m2 => m2.id = d)).any (fun m2 => (declaredDeps m2).contains m.id)).map (·.id)
+  let step (s : List Id) : List Id := s ++ ((ms.filter fun m => m.id ∉ s && (declaredDeps m).any (· ∈ s)).map (·.id))
+  (List.range ms.length).foldl (fun s _ => step s) core
+
 def generatedInvalid (r : Run) (pruneIds : List Id) : List Id :=
   -- invalid by construction of the generator: field errors, and the named families of bad references
   -- (a reference is external if it is neither in the apply set nor among the tracked objects that still exist)
   (r.objs.filter (fun m => fieldInvalid m || m.depsRaw ≠ "" || (m.mutExt && m.mutFrom.isSome) ||
       (m.deps ++ (match m.mutFrom with | some x => [x] | none => [])).any (fun d => d ∉ r.objs.map (·.id) && d ∉ pruneIds) || dedup m.deps ≠ m.deps ||
-      (m.id.name = "x" || m.id.name = "y") && m.deps.any (fun d => d.name = "x" || d.name = "y"))).map (·.id)
+      (m.id.name = "x" || m.id.name = "y") && m.deps.any (fun d => d.name = "x" || d.name = "y") ||
+      m.id ∈ onOrBehindCycle r)).map (·.id)
 
 def checkC11 (h : History) (obs : List RunObs) : Option String :=
   (List.range obs.length).findSome? fun k =>
@@ -438,7 +448,11 @@ def checkC03 (h : History) (obs : List RunObs) : Option String :=
       let bad2 := if !stillThere.isEmpty then some s!"objects {stillThere.map (·.name)} whose deletion completed still exist" else none
       let bad3 := match o.final.inv with
         | some l =>
-          if r.destroy && false then none
+          let allDeleted := r.destroy && invalidNamed.isEmpty && es.all fun e => match e with
+            | .op _ _ _ st _ => st = "Successful"
+            | .wait _ i st => st = "Successful" || (st = "Pending" && lastWait es i = some "Successful")
+            | _ => true
+          if allDeleted then some "a destroy in which every object was deleted and observed gone left the inventory object behind"
           else if !(l.all (· ∈ expected) && expected.all (· ∈ l)) then
             -- un-applied, un-pruned previous ids (NoPrune) are judged by C01; report only genuine formula mismatches
             let extra := l.filter (· ∉ expected)
